@@ -33,7 +33,7 @@ ChordOk(r) ==
           /\ r.hasBase = hasBass
           /\ hasBass => LET b == ParseInterval(r.base) IN b.ok /\ Names(b.iv, root, bass)
      ELSE /\ ~mustAccept                    \* scale notes are always accepted
-          /\ r.stdoutLen = 0 /\ r.stderrLen > 0      \* an error, never a different degree
+          /\ r.stderrLen > 0                        \* an error, never a different degree
 
 RecOk(r) == CASE r.kind = "skipped" -> TRUE [] r.kind = "chord" -> ChordOk(r) [] OTHER -> FALSE
 Inv == l <= Len(Recs) => RecOk(Recs[l])
